@@ -86,6 +86,7 @@ struct Violation {
   char kind[48];
   char msg[1024];
   uint64_t count;
+  uint64_t storm; // reports since clear_violation()
 };
 
 enum { K_PR = 0, K_PW = 1, K_AR = 2, K_AW = 3 };
@@ -331,8 +332,17 @@ uint64_t heap_live_blocks_since(uint64_t mark) {
 }
 
 // ------------------------------------------------------------------------------------------------ violations
+static void fatal_json(const char* kind, const char* msg);
 void report(const char* kind, const char* fmt, ...) {
   G.viol.count++;
+  // a loop over corrupted state (e.g. a cyclic retire list walked by an unmanaged thread) reports for ever: no scheduler budget
+  // applies outside run(), so the report counter is the watchdog
+  if (++G.viol.storm > 200000) {
+    char m[600];
+    snprintf(m, sizeof m, "more than 200000 oracle reports since the last execution started (latest kind %s, first: %s %.150s): endless loop over corrupted state",
+             kind, G.viol.kind, G.viol.msg);
+    fatal_json("hang", m);
+  }
   if (G.viol.set) {
     // a heap error is the stronger witness: it replaces an earlier race report of the same execution
     bool heap_kind = !strcmp(kind, "use-after-free") || !strcmp(kind, "double-free") || !strcmp(kind, "wild-access");
@@ -358,6 +368,7 @@ bool has_violation() { return G.viol.set; }
 const char* violation_kind() { return G.viol.kind; }
 const char* violation_msg() { return G.viol.msg; }
 void clear_violation() {
+  G.viol.storm = 0;
   G.viol.set = false;
   G.viol.kind[0] = 0;
   G.viol.msg[0] = 0;
